@@ -1,5 +1,5 @@
 (* Proofs about Model/ToastTerm.v: routes agree, vertex lattice, boundary gluing,
-   subsample = centres, homomorphic images.  No real numbers here. *)
+   subsample = centres, homomorphic images, lookup selection/nesting/level-1.  No reals here. *)
 From Coq Require Import List NArith ZArith Arith Bool Lia.
 Ltac Zify.zify_post_hook ::= Z.to_euclidean_division_equations.
 From Toasty Require Import Model.Quadtree Model.ToastTerm.
@@ -1002,3 +1002,170 @@ Section Routes.
       destruct Hl as ((Ht & _) & _). rewrite Ht, Hp. reflexivity.
   Qed.
 End Routes.
+
+(* ------------------------------------------------------------------ C12: selection logic *)
+Section PickZ.
+  Variable P : Type.
+  Variable score : gtile P -> Z.
+  Notation is0 := (fun s : Z => Z.eqb s 0).
+  Notation pickc := (pick_child is0 Z.gtb score).
+
+  (* invariant of the loop once a best score is held: the result is the first zero if there
+     is one, else the first element of maximal score among [cur] (score bs) and the rest *)
+  Lemma pick_child_some : forall l bs cur, score cur = bs ->
+    let r := pickc l (Some bs) cur in
+    (forall l1 c l2, l = l1 ++ c :: l2 -> score c = 0%Z -> (forall d, In d l1 -> score d <> 0%Z) -> r = c) /\
+    ((forall d, In d l -> score d <> 0%Z) ->
+       (score r >= bs)%Z /\ (forall d, In d l -> (score d <= score r)%Z) /\
+       ((r = cur /\ forall d, In d l -> (score d <= bs)%Z) \/
+        (exists l1 l2, l = l1 ++ r :: l2 /\ (forall d, In d l1 -> (score d < score r)%Z) /\ (bs < score r)%Z))).
+  Proof.
+    induction l as [|c l IH]; intros bs cur Hcur; cbn [ToastTerm.pick_child].
+    - split.
+      + intros l1 c l2 H. destruct l1; discriminate.
+      + intros _. split; [lia|]. split; [intros d []|]. left. split; [reflexivity|intros d []].
+    - destruct (Z.eqb (score c) 0) eqn:E0.
+      + apply Z.eqb_eq in E0. split.
+        * intros l1 c' l2 H Hz Hnz. destruct l1 as [|d l1].
+          -- injection H as -> _. reflexivity.
+          -- injection H as <- _. exfalso. apply (Hnz c); [left; reflexivity|assumption].
+        * intros Hnz. exfalso. apply (Hnz c); [left; reflexivity|assumption].
+      + apply Z.eqb_neq in E0.
+        destruct (Z.gtb (score c) bs) eqn:Eg.
+        * assert (Hg : (score c > bs)%Z) by (apply Z.gtb_lt in Eg; lia).
+          destruct (IH (score c) c eq_refl) as (I1 & I2).
+          set (r := pickc l (Some (score c)) c) in *. split.
+          -- intros l1 c' l2 H Hz Hnz. destruct l1 as [|d l1].
+             ++ injection H as -> _. contradiction.
+             ++ injection H as <- H. apply (I1 l1 c' l2 H Hz). intros d' Hd. apply Hnz. right; assumption.
+          -- intros Hnz. destruct I2 as (J1 & J2 & J3); [intros d Hd; apply Hnz; right; assumption|].
+             split; [lia|]. split.
+             ++ intros d [<-|Hd]; [lia|apply J2; assumption].
+             ++ right. destruct J3 as [(E & J3)|(l1 & l2 & E & J3 & J4)].
+                ** exists [], l. rewrite E. repeat split; [intros d []|lia].
+                ** exists (c :: l1), l2. split; [cbn [app]; f_equal; exact E|]. split; [|lia].
+                   intros d [<-|Hd]; [lia|apply J3; assumption].
+        * assert (Hg : (score c <= bs)%Z) by (rewrite Z.gtb_ltb in Eg; apply Z.ltb_ge in Eg; lia).
+          destruct (IH bs cur Hcur) as (I1 & I2).
+          set (r := pickc l (Some bs) cur) in *. split.
+          -- intros l1 c' l2 H Hz Hnz. destruct l1 as [|d l1].
+             ++ injection H as -> _. contradiction.
+             ++ injection H as <- H. apply (I1 l1 c' l2 H Hz). intros d' Hd. apply Hnz. right; assumption.
+          -- intros Hnz. destruct I2 as (J1 & J2 & J3); [intros d Hd; apply Hnz; right; assumption|].
+             split; [assumption|]. split.
+             ++ intros d [<-|Hd]; [lia|apply J2; assumption].
+             ++ destruct J3 as [(E & J3)|(l1 & l2 & E & J3 & J4)].
+                ** left. split; [exact E|]. intros d [<-|Hd]; [lia|apply J3; assumption].
+                ** right. exists (c :: l1), l2. split; [cbn [app]; f_equal; exact E|]. split; [|assumption].
+                   intros d [<-|Hd]; [lia|apply J3; assumption].
+  Qed.
+
+  (* toast.py:284-301 -- "first child with score 0, else the first maximal score" *)
+  Theorem pick_child_selects c0 l cur :
+    let r := pickc (c0 :: l) None cur in
+    (forall l1 c l2, c0 :: l = l1 ++ c :: l2 -> score c = 0%Z -> (forall d, In d l1 -> score d <> 0%Z) -> r = c) /\
+    ((forall d, In d (c0 :: l) -> score d <> 0%Z) ->
+       exists l1 l2, c0 :: l = l1 ++ r :: l2 /\ (forall d, In d l1 -> (score d < score r)%Z) /\
+                     (forall d, In d (c0 :: l) -> (score d <= score r)%Z)).
+  Proof.
+    cbn [ToastTerm.pick_child]. destruct (Z.eqb (score c0) 0) eqn:E0.
+    - apply Z.eqb_eq in E0. split.
+      + intros l1 c l2 H Hz Hnz. destruct l1 as [|d l1].
+        * injection H as -> _. reflexivity.
+        * injection H as <- _. exfalso. apply (Hnz c0); [left; reflexivity|assumption].
+      + intros Hnz. exfalso. apply (Hnz c0); [left; reflexivity|assumption].
+    - apply Z.eqb_neq in E0. destruct (pick_child_some l (score c0) c0 eq_refl) as (I1 & I2).
+      set (r := pickc l (Some (score c0)) c0) in *. split.
+      + intros l1 c l2 H Hz Hnz. destruct l1 as [|d l1].
+        * injection H as -> _. contradiction.
+        * injection H as <- H. apply (I1 l1 c l2 H Hz). intros d' Hd. apply Hnz. right; assumption.
+      + intros Hnz. destruct I2 as (J1 & J2 & J3); [intros d Hd; apply Hnz; right; assumption|].
+        destruct J3 as [(E & J3)|(l1 & l2 & E & J3 & J4)].
+        * exists [], l. rewrite E. repeat split; [intros d []|].
+          intros d [<-|Hd]; [lia|]. apply J3. assumption.
+        * exists (c0 :: l1), l2. split; [cbn [app]; f_equal; exact E|]. split.
+          -- intros d [<-|Hd]; [lia|apply J3; assumption].
+          -- intros d [<-|Hd]; [lia|apply J2; assumption].
+  Qed.
+End PickZ.
+
+(* ------------------------------------------------------------------ C12: nesting *)
+Section NestP.
+  Variable P : Type.
+  Variable base : N -> P.
+  Variable mid : P -> P -> P.
+  Variable Sc : Type.
+  Variable is0 : Sc -> bool.
+  Variable gtb : Sc -> Sc -> bool.
+  Variable score : gtile P -> Sc.
+  Notation lookup := (lookup base mid is0 gtb score).
+
+  Lemma anc_add p a b : anc (anc p a) b = anc p (a + b).
+  Proof.
+    unfold anc; cbn [pn px py]. rewrite Nat2N.inj_add, N.pow_add_r.
+    rewrite !N.div_div by (apply N.pow_nonzero; lia). f_equal. lia.
+  Qed.
+
+  Theorem lookup_nested_step cs d t t' :
+    lookup cs d = Some t -> lookup cs (S d) = Some t' -> anc (tpos t') 1 = tpos t.
+  Proof.
+    intros H H'. pose proof (lookup_nested_child P base mid Sc is0 gtb score cs d t t' H H') as Hin.
+    apply in_div4 in Hin. destruct Hin as (ix & iy & Hx & Hy & ->).
+    rewrite child_pos by assumption. unfold anc; cbn [pn px py]. change (2 ^ N.of_nat 1) with 2.
+    destruct (tpos t) as [n x y]; cbn [pn px py]. f_equal; lia.
+  Qed.
+
+  (* the depth-d answer is the ancestor of the depth-(d+k) answer *)
+  Theorem lookup_nested_all cs d : forall k t t', (1 <= d)%nat ->
+    lookup cs d = Some t -> lookup cs (d + k) = Some t' -> anc (tpos t') k = tpos t.
+  Proof.
+    induction k as [|k IH]; intros t t' Hd H H'.
+    - rewrite Nat.add_0_r in H'. rewrite H in H'. injection H' as <-. apply anc_0.
+    - replace (d + S k)%nat with (S (d + k)) in H' by lia.
+      destruct (lookup cs (d + k)) as [t1|] eqn:E1.
+      + pose proof (lookup_nested_step cs (d + k) t1 t' E1 H') as Hs.
+        replace (S k) with (1 + k)%nat by lia. rewrite <- anc_add, Hs. apply (IH t t1 Hd H eq_refl).
+      + unfold ToastTerm.lookup in E1. destruct (d + k)%nat eqn:E; [lia|discriminate].
+  Qed.
+End NestP.
+
+(* ------------------------------------------------------------------ C12: level-1 choice *)
+Definition corners_of (t : tile) : list pt := [c_ul t; c_ur t; c_lr t; c_ll t].
+
+(* handed the interval index q1, the level-1 loop picks the tile whose equator corners are
+   at true longitudes ((q1 + shift) mod 4) * 90 and one quarter turn further, shift = 2 for
+   the planetary system *)
+Theorem level1_pick_spans cs q1 : q1 < 4 ->
+  let t := level1_pick Base cs q1 in
+  In (Base ((q1 + lshift cs) mod 4)) (corners_of t) /\
+  In (Base ((q1 + 1 + lshift cs) mod 4)) (corners_of t) /\
+  In (b_north Base cs) (corners_of t) /\ In (b_south Base cs) (corners_of t).
+Proof.
+  intros Hq. assert (q1 = 0 \/ q1 = 1 \/ q1 = 2 \/ q1 = 3) as [-> | [-> | [-> | ->]]] by lia;
+    destruct cs; vm_compute; tauto.
+Qed.
+
+(* the coded test (q1 = the interval of lon itself) is right for the astronomical system ... *)
+Theorem level1_coded_astronomical q : q < 4 ->
+  In (Base q) (corners_of (level1_pick Base Astro q)) /\ In (Base ((q + 1) mod 4)) (corners_of (level1_pick Base Astro q)).
+Proof.
+  intros Hq. assert (q = 0 \/ q = 1 \/ q = 2 \/ q = 3) as [-> | [-> | [-> | ->]]] by lia; vm_compute; tauto.
+Qed.
+
+(* ... and wrong for the planetary one (F4): no interval gets a tile that touches it *)
+Theorem level1_coded_planetary_refuted_term :
+  forall q, q < 4 -> ~ In (Base q) (corners_of (level1_pick Base Planet q)) /\
+                     ~ In (Base ((q + 1) mod 4)) (corners_of (level1_pick Base Planet q)).
+Proof.
+  intros q Hq. assert (q = 0 \/ q = 1 \/ q = 2 \/ q = 3) as [-> | [-> | [-> | ->]]] by lia;
+    vm_compute; split; intros H; repeat (destruct H as [H|H]; [discriminate|]); exact H.
+Qed.
+
+(* the repaired test: interval (q + shift) mod 4 is handed over, and the picked tile spans q *)
+Theorem level1_fixed_spans cs q : q < 4 ->
+  let t := level1_pick Base cs ((q + lshift cs) mod 4) in
+  In (Base q) (corners_of t) /\ In (Base ((q + 1) mod 4)) (corners_of t).
+Proof.
+  intros Hq. assert (q = 0 \/ q = 1 \/ q = 2 \/ q = 3) as [-> | [-> | [-> | ->]]] by lia;
+    destruct cs; vm_compute; tauto.
+Qed.
